@@ -13,6 +13,7 @@ NEED_AST = True
 
 import types
 import z3
+from traits.ctrait import CTrait
 
 from vt import symx, csym, capi, cenv, pymodel
 from vt.symx import SymInt, SymFloat, SymComplex, SymOpaque
@@ -248,6 +249,12 @@ def mk_value(ex, kind, tag="v"):
         return TupleSub((mk_value(ex, "int", tag + "0"), mk_value(ex, "float", tag + "1")))
     if kind == "tuple_ss":
         return ("abc", mk_value(ex, "int", tag + "1"))
+    if kind == "tuple_is":
+        return (mk_value(ex, "int64", tag + "0"), "a")
+    if kind == "tuple_fs":
+        return (mk_value(ex, "float", tag + "0"), "a")
+    if kind == "tuple_ii":
+        return (mk_value(ex, "int64", tag + "0"), mk_value(ex, "int", tag + "1"))
     if kind == "npint":
         return [np.int64(3), np.int8(-1), np.uint64(2 ** 63)][ex.choice(tag + ".np", 3)]
     if kind == "npfloat":
@@ -280,9 +287,12 @@ def cfg_range(ex):
         for b in (lo, hi):
             if b is not None:
                 ex.assume(z3.Not(z3.fpIsNaN(b.f)))
-        t = Range(0.0, 1.0, exclude_low=xl, exclude_high=xh)
-        t._low, t._high = lo, hi
-        t.fast_validate = (4, lo, hi, (1 if xl else 0) | (2 if xh else 0))
+        # the REAL constructor runs on the symbolic bounds (under the Python-side shadows of type / float / isinstance), so the
+        # fast-validate descriptor and the attributes the Python validate reads are both what the current source computes
+        with cenv.python_side_env():
+            t = Range(lo, hi, exclude_low=xl, exclude_high=xh)
+        if not (isinstance(t.fast_validate, tuple) and len(t.fast_validate) == 4):
+            raise symx.HarnessError("Range constructor on symbolic bounds produced no float_range descriptor: %r" % (t.fast_validate,))
         return t
     for b in (lo, hi):
         if b is not None:
@@ -298,10 +308,16 @@ def cfg_range_const(ex):
 
 
 def cfg_map(ex):
-    t = Map({"yes": 1, "abc": 0, 1: "one", 2.5: None})
-    if ex.sym:
-        t.map = pymodel.ModelDict(t.map)
-        t.fast_validate = (6, t.map)
+    """the real constructor runs on the defining mapping (a proxy-aware dict in symbolic runs); afterwards the defining mapping
+    may gain or lose a key - both validators are documented to follow the mapping the trait was defined with"""
+    base = {"yes": 1, "abc": 0, 1: "one", 2.5: None}
+    m = pymodel.ModelDict(base) if ex.sym else dict(base)
+    t = Map(m)
+    mut = ex.choice("defining_map_changed_later", 3)
+    if mut == 1:
+        m["12"] = 12
+    elif mut == 2:
+        del m["abc"]
     return t
 
 
@@ -341,6 +357,10 @@ CONFIGS = {
     "TupleAnyBool": (cfg_tuple(Any, Bool), ["tuple_if", "tuple_bi", "tuple_1"]),
     "InstanceA": (lambda ex: Instance(A), ["none"] + OBJECTS + ["int"]),
     "InstanceA_nonone": (lambda ex: Instance(A, allow_none=False), ["none"] + OBJECTS),
+    # definitions derived by calling a trait type (TraitType.__call__ -> clone) with other metadata
+    "InstanceA_clone_nonone": (lambda ex: Instance(A)(allow_none=False), ["none"] + OBJECTS),
+    "InstanceA_clone_none": (lambda ex: Instance(A, allow_none=False)(allow_none=True), ["none", "instA", "instU", "object"]),
+    "AdaptYes_clone_nonone": (lambda ex: Instance(Tgt, adapt="yes")(allow_none=False), ["none", "src_ok", "src_no", "instTgt"]),
     "InstanceInt": (lambda ex: Instance(int), ["none", "bool", "int", "intsub", "float", "object", "npint"]),
     "AdaptYes": (lambda ex: Instance(Tgt, adapt="yes"), ["none", "src_ok", "src_no", "instTgt", "instU", "int"]),
     "AdaptYes_nonone": (lambda ex: Instance(Tgt, adapt="yes", allow_none=False), ["none", "src_ok", "src_no", "instTgt", "instU"]),
@@ -361,6 +381,10 @@ CONFIGS = {
     "EitherInstCallable": (lambda ex: Either(Instance(A), Callable(allow_none=False), Bool), ["none", "bool", "int", "instA", "instU", "callable", "classA"]),
     "EitherCIntTuple": (lambda ex: Either(Str, Tuple(CInt, CInt)), ["str", "int", "tuple_if", "tuple_bi", "tuple_ss", "tuple_1"]),
     "EitherNested": (lambda ex: Either(Either(Int, List(Int), Tuple(Int, Int)), Str), ["int", "bool", "float", "str", "list", "tuple_bi", "tuple_if", "none", "object"]),
+    # several tuple alternatives: an earlier one converts an element and then fails on a later one
+    "EitherTwoTuples": (lambda ex: Either(Tuple(Float, Int), Tuple(Float, Str)),
+                        ["tuple_is", "tuple_fs", "tuple_ii", "tuple_if", "tuple_fi", "tuple_1", "none"]),
+    "EitherTuplesNone": (lambda ex: Either(Tuple(CInt, Int), Tuple(Float, Str), None), ["tuple_is", "tuple_fs", "tuple_ii", "none", "int"]),
     "EitherMapComplex": (lambda ex: Either(Map({"yes": 1, 1: 2}), Complex), FNUM + ["str"]),
 }
 
@@ -441,6 +465,8 @@ def make_harness(cfgname, kind):
         handler = ttype
         if isinstance(ttype, Either):
             handler = ttype.as_ctrait().handler      # Either(...): the TraitCompound built by the real code
+        elif isinstance(ttype, CTrait):
+            handler = ttype.handler                  # trait_type(...)(metadata): the clone the real code built
         if ex.sym:
             patch_tuple_members(handler)
         obj = Owner()
